@@ -81,73 +81,19 @@ def directReads (fuel : Nat) (P : Prog) (s : Storage) (id : NodeId) : List DepNo
 /-- what a dependency is worth under the sources of `s` -/
 def depObs (fuel : Nat) (P : Prog) (s : Storage) : DepNode → Res (Option Nat)
   | .source k => .ok (srcObs s.srcs s.maps k)
+  | .absent k => .ok (srcObs s.srcs s.maps k)
   | .derived m => match evalScratch fuel P s m with
     | .ok v => .ok (some v)
     | .panic p => .panic p
 
-/-! ## strict evaluation: the hypothesis of the `_partial` theorems
+/-! ## the hypothesis of the `_partial` theorems -/
 
-`evalSS` is `evalS` except that reading an ABSENT singleton / tracked counter is a failure instead
-of `None`.  "The from-scratch evaluation of every call of the history succeeds strictly" is the
-explicit extra hypothesis under which C01 is proved of today's code (it excludes F1/F2 and caught
-panics, and nothing else). -/
-
-def evalPS (call : NodeId → Res Nat) (P : Prog) (srcs : List (Key × SrcNode)) (maps : List (List Nat)) :
-    Expr → Nat → Res Nat
-  | .lit n, _ => .ok n
-  | .param, a => .ok a
-  | .src k, a =>
-    match evalPS call P srcs maps k a with
-    | .ok kv =>
-      match alookup srcs (.src kv) with
-      | some nd => .ok nd.val
-      | none => .panic .absentSource
-    | r => r
-  | .sing i, _ =>
-    match alookup srcs (.sing i) with
-    | some nd => .ok (nd.val + 1)
-    | none => .panic .absentSource
-  | .trk m, _ =>
-    match alookup srcs (.ctr m) with
-    | some _ => .ok (mapLen maps m)
-    | none => .panic .absentSource
-  | .call f e, a =>
-    match evalPS call P srcs maps e a with
-    | .ok av => call (nodeOf P f av)
-    | r => r
-  | .add x y, a =>
-    match evalPS call P srcs maps x a with
-    | .ok xv =>
-      match evalPS call P srcs maps y a with
-      | .ok yv => .ok (xv + yv)
-      | r => r
-    | r => r
-  | .eq x y, a =>
-    match evalPS call P srcs maps x a with
-    | .ok xv =>
-      match evalPS call P srcs maps y a with
-      | .ok yv => .ok (if xv = yv then 1 else 0)
-      | r => r
-    | r => r
-  | .ite c t e, a =>
-    match evalPS call P srcs maps c a with
-    | .ok cv => if cv ≠ 0 then evalPS call P srcs maps t a else evalPS call P srcs maps e a
-    | r => r
-  | .half x, a =>
-    match evalPS call P srcs maps x a with
-    | .ok xv => .ok (xv / 2)
-    | r => r
-
-def evalSS : Nat → Prog → List (Key × SrcNode) → List (List Nat) → List NodeId → NodeId → Res Nat
-  | 0, _, _, _, _, _ => .panic .fuel
-  | fuel + 1, P, srcs, maps, path, id =>
-    if path.contains id then .panic .cyclic
-    else evalPS (evalSS fuel P srcs maps (id :: path)) P srcs maps (fnOf P id.fn).body id.arg
-
-/-- every `call` of the history, evaluated from scratch at that moment, succeeds strictly -/
+/-- every `call` of the history, evaluated from scratch at that moment, returns a value (does not
+panic: no keyed source is read while absent, no cycle).  Reading an absent singleton or the counter
+of a never-written tracked field is allowed. -/
 def CleanCalls (fuel cap : Nat) (P : Prog) (h : List Op) : Prop :=
   ∀ pre f a rest, h = pre ++ Op.call f a :: rest →
-    ∃ v, evalSS fuel P (after fuel cap P pre).srcs (after fuel cap P pre).maps [] (nodeOf P f a) = .ok v
+    ∃ v, evalS fuel P (after fuel cap P pre).srcs (after fuel cap P pre).maps [] (nodeOf P f a) = .ok v
 
 /-! ## program classes -/
 
